@@ -17,7 +17,7 @@ OPTIONS = {
     "thorough": {"max_paths": 1500000, "unit_budget_s": 3300},
 }
 BOUNDS = {
-    "quick": {"raw_bytes": "all byte strings of length <= 7 (fresh server) / <= 6 (fresh client) / <= 4 (other pre-states)", "window": "2 symbolic octets at every offset of 17 seed messages", "cuts": "whole delivery and every 2-chunk cut for raw strings of length <= 4; windows delivered whole and cut once in the middle of the window", "pre_states": "client/server x fresh/opened/search/binding", "histories": "every pair of application calls (accepted or refused) followed by a delivered message of every kind with a symbolic id 0..6"},
+    "quick": {"raw_bytes": "all byte strings of length <= 7 (fresh server) / <= 6 (fresh client) / <= 4 (other pre-states)", "window": "2 symbolic octets at every offset of 11 seed messages, delivered to the matching side and to the other side", "cuts": "whole delivery and every 2-chunk cut for raw strings of length <= 4; windows delivered whole and cut once in the middle of the window", "pre_states": "client/server x fresh/opened/search/binding", "histories": "every pair of application calls (accepted or refused) followed by a delivered message of every kind with a symbolic id 0..6"},
     "thorough": {"raw_bytes": "all byte strings of length <= 10 (fresh server) / <= 9 (fresh client) / <= 7 (other pre-states)", "window": "3 symbolic octets at every offset", "cuts": "every 2-chunk cut for raw strings <= 5", "pre_states": "same"},
 }
 OUTSIDE = [
@@ -69,6 +69,11 @@ def units(tier):
                 us.append({"name": f"win{k}_{name}_o{off}", "shape": {"kind": "win", "seed": name, "side": side, "pre": pre, "off": off, "k": k, "cut": None}})
                 if not quick and k == 2 and off % 3 == 0:
                     us.append({"name": f"win{k}_{name}_o{off}_cut", "shape": {"kind": "win", "seed": name, "side": side, "pre": pre, "off": off, "k": k, "cut": off + 1}})
+                if k == 2:
+                    # the same bytes delivered to the *other* kind of session (a server fed a
+                    # response, a client fed a request): still only a ProtocolError may come out
+                    other = "client" if side == "server" else "server"
+                    us.append({"name": f"xwin{k}_{name}_o{off}", "shape": {"kind": "win", "seed": name, "side": other, "pre": "opened", "off": off, "k": k, "cut": None}})
         us.append({"name": f"trunc_{name}", "shape": {"kind": "trunc", "seed": name, "side": side, "pre": pre}})
     # prior session histories: two application calls (accepted or refused), then a delivered
     # message of every kind whose id is symbolic
